@@ -319,11 +319,11 @@ End Sound.
 Theorem model_holds c items : conforms_run c [] items = true -> holds c items = true.
 Proof.
   intros Hrun. unfold holds.
-  apply (run_holds c (Z.of_nat (nkeys items) <=? cacheSize c) (nodup string_dec (sent_keys items))) with (st := []).
+  apply (run_holds c (Z.of_nat (nkeys items) <=? cacheSize c) (dedup (sent_keys items) [])) with (st := []).
   - intros Hs. apply Z.leb_le in Hs. exact Hs.
   - apply Inv_init.
   - intros x [].
-  - intros x Hx. apply nodup_In. exact Hx.
+  - intros x Hx. apply dedup_incl. left. exact Hx.
   - exact Hrun.
 Qed.
 
